@@ -370,6 +370,11 @@ func c11(r *engine.Report, p *engine.Program) {
 		mustDisconnect("a reject message", rejE)
 	}
 
+	{
+		okA, whyA := adjacencyAfterInsertion(p)
+		r.Check("R2-admission", "runProtocol: a session writes the link's cost rows only after its admission (insertion into connections)", token.NoPos, okA,
+			"no write of knownConnectionCosts in runProtocol is reachable before the insertion into connections: a refused session leaves no routing state behind", whyA)
+	}
 	// R3 cost selection: the per-node override looked up under the announced ID, else the backend default
 	{
 		nodeCost := p.Field("netceptor", "BackendInfo", "nodeCost")
